@@ -1,4 +1,5 @@
 import HcipyVerif.Lemmas.Cache
+import HcipyVerif.Lemmas.WavelengthKey
 
 /-!
 # C05 — optical elements are history-independent: caching is transparent
@@ -19,7 +20,7 @@ set_option linter.unusedSimpArgs false
 set_option linter.unusedVariables false
 
 namespace HcipyVerif.C05
-open HcipyVerif.Cache
+open HcipyVerif.Cache HcipyVerif.WavelengthKey
 
 /-- The two invariants together. -/
 def Inv (e : Elem) (s : St) : Prop := Sound e s ∧ Acc e s
@@ -314,6 +315,46 @@ theorem lens_history_repaired :
     let e : Elem := ⟨true, true, 11, fun _ _ _ => some 1, fun _ _ _ => some 9⟩
     run e (St.init 0) [.req (some 1) none (some 5), .req (some 2) none (some 5)]
       = [.inst ⟨some 1, some 9, some 5⟩ 0, .inst ⟨some 2, some 9, some 5⟩ 0] := by decide
+
+/-! ## The wavelength key (the property's side condition "wavelengths at least 1e-6 apart")
+
+`wavelength_key = int(np.round(np.log(wavelength) / np.log(1 + 1e-9)))`, modelled over ℝ as
+`wlKey r b lam = r (log lam / log b)` for any round-to-nearest `r` (ties broken either way) and any
+base `b ∈ [1 + 1e-9/2, 1 + 2e-9]` — in particular the exact `1 + 1e-9` and the double the code uses. -/
+
+/-- The double nearest to `1 + 1e-9` (what `1 + 1e-9` evaluates to in the code), `1 + 4503600·2⁻⁵²`
+(the harness checks this identity on the running interpreter), is an admissible base. -/
+theorem base_double_ok : BaseOk (1 + 4503600 / 2 ^ 52) := by
+  constructor <;> norm_num
+
+example : Nearest (round : ℝ → ℤ) := nearest_round
+example : BaseOk (1 + 1 / 10 ^ 9) := baseOk_exact
+
+/-- **Wavelengths at least a relative 1e-6 apart never share an instance**: their keys differ (by at
+least 498), whatever the tie-breaking of the rounding and for the exact as well as the double base. -/
+theorem wavelength_key_separates {r : ℝ → ℤ} (hr : Nearest r) {b : ℝ} (hb : BaseOk b)
+    {l1 l2 : ℝ} (h1 : 0 < l1) (h : l1 * (1 + 1 / 10 ^ 6) ≤ l2) :
+    wlKey r b l1 ≠ wlKey r b l2 ∧ wlKey r b l1 + 498 ≤ wlKey r b l2 := by
+  have := wavelength_key_separates_base hr hb h1 h
+  exact ⟨by omega, this⟩
+
+/-- **Coalescing is local**: wavelengths within a relative 1e-10 get the same or neighbouring keys. -/
+theorem wavelength_key_stable {r : ℝ → ℤ} (hr : Nearest r) {b : ℝ} (hb : BaseOk b)
+    {l1 l2 : ℝ} (h1 : 0 < l1) (hle : l1 ≤ l2) (h : l2 ≤ l1 * (1 + 1 / 10 ^ 10)) :
+    |wlKey r b l2 - wlKey r b l1| ≤ 1 :=
+  wavelength_key_stable_base hr hb h1 hle h
+
+/-- **What the cache coalesces**: two wavelengths that share a key (hence an instance) are within one
+factor `base` (a relative 1e-9) of each other, in both directions. -/
+theorem wavelength_key_shared_close {r : ℝ → ℤ} (hr : Nearest r) {b : ℝ} (hb : BaseOk b)
+    {l1 l2 : ℝ} (h1 : 0 < l1) (h2 : 0 < l2) (h : wlKey r b l1 = wlKey r b l2) :
+    l2 ≤ l1 * b ∧ l1 ≤ l2 * b :=
+  ⟨wavelength_key_shared_close_base hr hb h1 h2 h, wavelength_key_shared_close_base hr hb h2 h1 h.symm⟩
+
+/-- The instance as in the code up to tie-breaking: Mathlib's `round`, exact base. -/
+theorem wavelength_key_separates_round {l1 l2 : ℝ} (h1 : 0 < l1) (h : l1 * (1 + 1 / 10 ^ 6) ≤ l2) :
+    wlKey round (1 + 1 / 10 ^ 9) l1 ≠ wlKey round (1 + 1 / 10 ^ 9) l2 :=
+  (wavelength_key_separates nearest_round baseOk_exact h1 h).1
 
 /-! ## Scratch state of the Fourier objects -/
 
